@@ -19,9 +19,9 @@ INPUTS.append(("wrappers", _wsdl, "\n".join(t for _, t in _wops), {}, {}, False)
 INPUTS.append(("inputs", corpus.inputs_schema(1),
                "query I1($a: WString, $f: WEnum, $g: WIn, $n: Names, $r: Rec, $d2: Defs) { ping(a: $a, f: $f, g: $g, n: $n, r: $r, d2: $d2) }\nquery I2($b: WInt!, $h: WScalar) { ping(b: $b, h: $h) }", {}, {}, False))
 INPUTS.append(("roots",
-               "schema { query: RootQ mutation: RootM subscription: RootS }\ntype RootQ { me: Person }\ntype RootM { rename(n: String!, tags: [String!] = [\"a\"]): Person! }\ntype RootS { ticks(n: Int): Int! people: Person }\n"
-               "interface Being { id: ID! }\ninterface Named implements Being { id: ID! name: String }\ntype Person implements Being & Named { id: ID! name: String boss: Person kind: Kind }\nenum Kind { A B }\ninput Loop { next: Loop, k: Kind = A }\n",
-               "query Me { me { id name boss { boss { id } } kind } }\nmutation Ren($n: String!) { rename(n: $n) { id } }\nsubscription Ticks($n: Int) { ticks(n: $n) }\nsubscription People { people { id name } }", {}, {}, True))
+               "schema { query: RootQ mutation: RootM subscription: RootS }\ntype RootQ { me(sort: Sort, by: [Axis!] = [X]): Person }\ntype RootM { rename(n: String!, tags: [String!] = [\"a\"]): Person! }\ntype RootS { ticks(n: Int): Int! people: Person }\n"
+               "interface Being { id: ID! }\ninterface Named implements Being { id: ID! name: String }\ntype Person implements Being & Named { id: ID! name: String boss: Person kind: Kind }\nenum Kind { A B }\ninput Loop { next: Loop, k: Kind = A }\nenum Sort { ASC DESC }\nenum Axis { X Y }\n",
+               "query Me($s: Sort, $by: [Axis!]) { me(sort: $s, by: $by) { id name boss { boss { id } } kind } }\nmutation Ren($n: String!) { rename(n: $n) { id } }\nsubscription Ticks($n: Int) { ticks(n: $n) }\nsubscription People { people { id name } }", {}, {}, True))
 INPUTS.append(("scalars_mixins",
                "scalar Date\nscalar Blob\nscalar Stamp\nscalar Money\ntype Query { when(d: Date, b: Blob): Ev range(stamps: [Stamp!], grid: [[Money]]): Int }\ntype Ev { at: Date! until: [Date] raw: Blob loc: Loc }\ntype Loc { lat: Float! lon: Float! }\ninput Win { from: Date!, to: Date }\ntype Mutation { book(w: Win!): Ev }",
                "query When($d: Date, $b: Blob) { when(d: $d, b: $b) { at until raw loc @mixin(from: \".mixins\", import: \"MixA\") { lat lon } ...EvF } }\n"
@@ -121,6 +121,18 @@ def _check(ii: int, snake, is_async, otel, all_in, all_en, custom_ops, comments,
     if kid:
         return known(kid)
     return False
+
+
+def twin_documented_refusal_reached(snake: bool, all_in: bool) -> bool:
+    """
+    post: _
+    """
+    bits = bits_from(snake, False, False, all_in, all_in, False, 0, False)
+    with NoTracing():
+        with opened_auditwall():
+            ii = [k for k, inp in enumerate(INPUTS) if inp[0] == "roots"][0]
+            status, probs = run_case(ii, bits)
+    return status != "documented_refusal"
 
 
 QUICK = os.environ.get("VERIF_C04_QUICK", "1") == "1"
